@@ -582,6 +582,7 @@ func (c *Client) completeCPP(
 
 	accounts := make(map[wallet.BackendID]wallet.Account)
 	var err error
+	opened := false
 	for i, wall := range c.wallet {
 		accounts[i], err = wall.Unlock(params.Parts[partIdx][i])
 		if err != nil {
@@ -603,6 +604,15 @@ func (c *Client) completeCPP(
 	// If subchannel proposal receiver, setup register funding update.
 	if prop.Type() == wire.SubChannelProposal && partIdx == ProposeeIdx {
 		parent.registerSubChannelFunding(ch.ID(), propBase.InitBals.Balances)
+		// The funding update is awaited, and the interceptor released, only
+		// once the channel has been set up. If setting it up fails, nobody
+		// would ever serve the interceptor: a matching update would be handed
+		// to it and block the parent channel forever.
+		defer func() {
+			if !opened {
+				parent.subChannelFundings.Release(ch.ID())
+			}
+		}()
 	}
 
 	if err := c.pr.ChannelCreated(ctx, ch.machine, peers, parentChannelID); err != nil {
@@ -619,6 +629,7 @@ func (c *Client) completeCPP(
 	for i, wall := range c.wallet {
 		wall.IncrementUsage(params.Parts[partIdx][i])
 	}
+	opened = true
 	return ch, nil
 }
 
